@@ -124,6 +124,9 @@ func (its *PushPullHandler) validatePushPullPack() errors.OrdaError {
 
 func (its *PushPullHandler) initialize(retCh chan *model.PushPullPack) errors.OrdaError {
 	its.retCh = retCh
+	if its.gotPushPullPack.CheckPoint == nil { // an absent message field stands for its zero value
+		its.gotPushPullPack.CheckPoint = model.NewCheckPoint()
+	}
 	its.resPushPullPack = its.gotPushPullPack.GetResponsePushPullPack()
 	its.resPushPullPack.Option = uint32(model.PushPullBitNormal)
 
